@@ -227,7 +227,7 @@ def c06_shapes(tier):
         shapes.append(('hx_pa', [6, 4 << 8], lab('c06/unique', words), {'pa_tmpl': tmpl('ok', exp, R[:2], words)}))
         shapes.append(('hx_pa', [6, 8 << 8], lab('c06/unique-err', words), {'pa_tmpl': tmpl('throw', [], R[:2], words)}))
         shapes.append(('hx_pa', [6, 0], lab('c06/dups-kept', words), {'pa_tmpl': tmpl('ok', ['v=7,' + ','.join('#' + c for w in words for c in re.findall('\x01(\\d)', w))], R[:2], words)}))
-    shapes.append(('hx_pa', [6, 4 << 8], 'c06/unique vs previous content', {'pa_tmpl': tmpl('ok', ['v=7,#0'], ['d2'], ['-v', '7,' + S(0) + ',7'])}))
+    shapes.append(('hx_pa', [6, 4 << 8], 'c06/unique vs previous content', {'pa_tmpl': tmpl('ok', ['v=7,#0'], ['r2:10:99'], ['-v', '7,' + S(0) + ',7'])}))
     # element checks: a non-numeric element anywhere is refused
     for words in (['-v', S(0) + ',' + S(1)], ['-v', S(1) + ',' + S(0)], ['-v', S(0), '-v', S(1)]):
         shapes.append(('hx_pa', [6, 0], lab('c06/bad-element', words), {'pa_tmpl': tmpl('throw', [], ['d2', 'a1'], words)}))
@@ -261,7 +261,7 @@ def c07_shapes(tier):
         shapes.append(('hx_pa_string', [0, 0], lab('c07/string', words), {'pa_tmpl': tmpl('ok', items, slots, words)}))
         shapes.append(('hx_pa_env', [0, 0], lab('c07/env', words), {'pa_tmpl': tmpl('ok', items, slots, words)}))
         for cut in range(1, len(words)):
-            if words[cut - 1] in ('-n', '-o', '-s', '--number'):
+            if words[cut - 1] in ('-n', '-o', '-s', '--number', '-v'):
                 continue
             shapes.append(('hx_pa_env', [0, 0], lab('c07/env+argv', words[:cut] + ['\x02'] + words[cut:]), {'pa_tmpl': tmpl('ok', items, slots, words[:cut] + ['\x02'] + words[cut:])}))
     # override: the command line value wins, without a cardinality error
@@ -316,7 +316,8 @@ def main(prop, tier, only=None):
             'every branch, memory access and assertion; non-trivial = at least one path reaches the end of the harness')
 
     def keyfn(u_, r, v, cls):
-        return '%s:%s|%s' % (prop, r['label'], cls)
+        # the definition order / flag part of C05 labels is not part of a finding's identity
+        return '%s:%s|%s' % (prop, re.sub(r'/p\d/f\d/', '/', r['label']), cls)
     return run_e2(prop, tier, [u], rule, ASSUME, classify=classify, keyfn=keyfn)
 
 
